@@ -21,6 +21,7 @@ import (
 	"os"
 	"os/exec"
 	"path/filepath"
+	"reflect"
 	"regexp"
 	"sort"
 	"strconv"
@@ -547,7 +548,12 @@ func (i *instance) writeConfig() (err error) {
 	// backend shards -- fills the .Global and .Backends attributes
 	if i.options.BackendShards > 0 {
 		shards := i.config.Backends().ChangedShards()
-		if i.lastFailed {
+		cfg := i.config.(*config)
+		// backends render global options as well - eg the redirect code, the cookie key or the
+		// prefix of the ssl headers - so all of them are outdated if the global config changed,
+		// which only happens on a full sync, when the committed state was cleared
+		globalChanged := !cfg.hasCommittedData() && cfg.globalLast != nil && !reflect.DeepEqual(cfg.globalLast, cfg.global)
+		if i.lastFailed || globalChanged {
 			// a failed update might have left behind shard files that the state
 			// it committed doesn't consider changed anymore, rewrite all of them
 			shards = make([]int, i.options.BackendShards)
